@@ -67,6 +67,8 @@ func (p pixSpec) bytes() []byte {
 		return append(make([]byte, 0, len(p.data)), p.data...)
 	case "fill":
 		return bytes.Repeat([]byte{p.fill}, p.n)
+	case "adlerstress":
+		return adlerStress(p.n)
 	}
 	out := make([]byte, p.n)
 	s := p.seed
@@ -87,8 +89,30 @@ func (p pixSpec) token() string {
 		return hlib.Hex(p.data)
 	case "fill":
 		return fmt.Sprintf("fill:%02x:%d", p.fill, p.n)
+	case "adlerstress":
+		return fmt.Sprintf("adlerstress:%d", p.n)
 	}
 	return fmt.Sprintf("seeded:%d:%d", p.seed, p.n)
+}
+
+// adlerStress is the worst case for the 5552-byte chunking of updateAdler32 when used as a
+// one-row gray8 image: after the first 5552 stream bytes (filter byte + 5551 pixels) the sum `a`
+// is 65520, the largest reduced value, and every following byte is 0xFF.
+func adlerStress(n int) []byte {
+	out := make([]byte, n)
+	for i := range out {
+		switch {
+		case i < 256:
+			out[i] = 0xFF
+		case i == 256:
+			out[i] = 239
+		case i < 5551:
+			out[i] = 0
+		default:
+			out[i] = 0xFF
+		}
+	}
+	return out
 }
 
 func item(b []byte) string {
@@ -605,6 +629,11 @@ func generate(r *hlib.Run) []encCase {
 				}
 			}
 		}
+	}
+	// B3. Adler-32 worst case at the 5552-byte chunk boundary (gray8, one row), in the first
+	//     block and spilling into later blocks.
+	for _, n := range []int{5551 + 5552, 20000, capF - 1, capF + 3*5552, capF + capL + 7000} {
+		add(encCase{w: n, h: 1, stride: n, depth: 8, ct: 1, pix: pixSpec{kind: "adlerstress", n: n}, failAt: -1, tag: "B3:adler-stress"})
 	}
 	// C. extremes 1xN / Nx1 and tiny.
 	for _, f := range fmts {
